@@ -14,8 +14,12 @@ CONSTANTS
   Gater = "off"
   MixMode = "basic"
   ScoreFree = {"p1", "p2", "p3"}
+  D = 4
+  Dlo = 2
+  Dhi = 5
+  Dscore = 2
   Bug = "none"
-  Families = {"rpc1", "mix", "px", "gater", "meshA", "meshB", "fanA", "fanB", "joinfan"}
+  Families = {"rpc1", "mix", "px", "gater", "meshA", "meshB", "fanA", "fanB", "joinfan", "graftfull", "graftbo"}
   ThrSets <- StdThrSets
   AllVec <- NoAllVec
 INVARIANT Emit
